@@ -65,7 +65,7 @@ pub mod sync {
 }
 
 pub mod thread {
-    pub use shuttle::thread::{current, park, spawn, yield_now, Builder, JoinHandle, Thread, ThreadId};
+    pub use shuttle::thread::{current, park, scope, spawn, yield_now, Builder, JoinHandle, Scope, ScopedJoinHandle, Thread, ThreadId};
     pub use ::std::thread::{panicking, Result};
 
     /// simulated time
